@@ -39,7 +39,7 @@ def generate(R, tier):
     top = 2000 if tier == "quick" else 65535
     for mss in range(1, top + 1):
         v = 4 if mss % 2 else 6
-        yield {"stream": "mss-sweep", "mode": "sniffed", "spec": {"v": v, "flags": 2, "opts": W.o_mss(mss)}, "m": mss + 40, "dbm": [min(65535, x) for x in (mss + 39, mss + 60, mss + 40, mss + 40)]}
+        yield {"stream": "mss-sweep", "mode": "sniffed", "spec": {"v": v, "flags": 2, "opts": W.o_mss(mss)}, "m": min(65535, mss + 40), "dbm": [min(65535, x) for x in (mss + 39, mss + 60, mss + 40, mss + 40)]}
     for _ in range(n):
         v = R.choice([4, 6])
         fl = R.choice([2, 2, 2, 0x12, 0x12, 0x10, 0x18, 0x03, 0x06, 0x04, 0x11, 0x0A, 0xC2, 0x52])
